@@ -17,6 +17,8 @@ pub const DEF: PropDef = PropDef {
 };
 
 pub const PRELUDE: &str = "put mysterious into vm\nput null into vn\nput true into vb\nput 0 into vz\nput 1.5 into vf\nput -1 into vg\nput 1e30 into vh\nput 0 over 0 into vx\nput \"\" into se\nput \"abc\" into sa\nput \"12\" into sn\nput 55296 into vs\nput \"a😀😀😀😀😀😀😀😀😀😀😀😀😀😀😀😀😀😀😀😀😀😀😀😀😀😀😀😀😀😀😀😀😀😀😀😀😀😀😀😀😀😀😀😀😀😀😀😀😀😀😀😀😀😀😀😀😀😀😀😀😀😀😀😀😀😀😀😀😀😀\" into sl\nrock ae\nrock ar with 1, \"s\"\nfun takes k\ngive back k\n\nGun takes k\ngive back k\n\nlet ad at \"k\" be 1\nlet dv at \"k\" be \"v\"\nlet dv at \"j\" be \"w\"\nrock mx with \"s\"\nlet mx at \"k\" be \"v\"\nrock nn with ar, ae\nrock ll with \"a\", \"b\", \"c\", \"d\", \"e\", \"f\", \"g\", \"h\", \"i\", \"j\", \"k\", \"l\", \"m\", \"n\", \"o\", \"p\", \"q\"\n";
+/// input shapes: ordinary lines, blank lines first, empty, no final newline, CR LF, non-ASCII, a blank line only
+pub const INPUTS: &[&[u8]] = &[b"line one\nline two\n", b"\n\nx\n", b"", b"no newline", b"\r\n\r\n", "é😀\n12\n".as_bytes(), b"\n"];
 pub const NO_REFERENT: &str = "if vb\nsay 0\n\n";
 
 pub const FILLERS: &[&str] = &["vm", "vn", "vb", "vz", "vf", "vg", "vh", "vx", "se", "sa", "sn", "ae", "ar", "ad", "fun", "nev", "it", "5", "\"lit\"", "mysterious", "fun taking ar", "roll ar", "ar at 0", "ar at 1e30", "ad at vh", "Qux Zed", "Gun", "gun", "vs", "sl", "dv", "mx", "nn", "ll"];
@@ -217,13 +219,17 @@ impl Check for C09 {
             }
         }
         ctx.nontrivial();
-        let (j, o) = judge(&text, b"line one\nline two\n", &JudgeOpts { run_unspecified: true, limits: crate::refmodel::interp::Limits { steps: if fam >= 4 { 3_000_000 } else { 20_000 }, depth: if fam >= 4 { 150 } else { 24 } } }, ctx);
-        match j {
-            Judged::Agree => ctx.count("compared_with_reference"),
-            Judged::Skipped => ctx.count("crash_freedom_only"),
-            Judged::Violation => {}
+        // programs that read input run on every input shape, the others on the first only
+        let inputs: &[&[u8]] = if text.contains("listen") { INPUTS } else { &INPUTS[..1] };
+        for input in inputs {
+            let (j, o) = judge(&text, input, &JudgeOpts { run_unspecified: true, limits: crate::refmodel::interp::Limits { steps: if fam >= 4 { 3_000_000 } else { 20_000 }, depth: if fam >= 4 { 150 } else { 24 } } }, ctx);
+            match j {
+                Judged::Agree => ctx.count("compared_with_reference"),
+                Judged::Skipped => ctx.count("crash_freedom_only"),
+                Judged::Violation => {}
+            }
+            let _ = o;
         }
-        let _ = o;
     }
     fn static_coverage(&self) -> Value {
         json!({"fillers": FILLERS, "templates": TEMPLATES.len(), "stray_items": STRAY, "poetic_heads": POETIC_HEADS, "poetic_atoms": POETIC_ATOMS})
